@@ -189,3 +189,12 @@ def run_case(case, ctx):
         ctx.check(prof.y[k] == cnt[n][i] and prof.mp[k] == N - 1, "profile_value",
                   lambda: "profile at %r shows (%r, %r), expected (%d, %d)"
                   % (float(t), prof.y[k], prof.mp[k], cnt[n][i], N - 1))
+
+
+def siblings(case):
+    """run right after the case in the same process (runner._run_one)"""
+    sibs = [ps.sibling_wider_edges(case)]
+    extra = ps.sibling_same_count_and_sum(case)
+    if extra is not None:
+        sibs.append(extra)
+    return sibs
